@@ -348,7 +348,7 @@ impl Scenario for ArithProg {
                     depth[dst as usize] = 0;
                 }
                 19 => t.ops.push(Op::new(0, A_SC_REDUCE).arg(rng.below(10)).seed(rng.data_seed())),
-                20 => t.ops.push(Op::new(0, A_SC_CANONICAL).arg(rng.below(12)).seed(rng.data_seed())),
+                20 => t.ops.push(Op::new(0, A_SC_CANONICAL).arg(rng.below(24)).seed(rng.data_seed())),
                 21 => t.ops.push(Op::new(0, A_SC_MULADD).arg(rng.below(1 << 12)).seed(rng.data_seed())),
                 22 => t.ops.push(Op::new(0, A_GE_BASE).arg(rng.below(12)).seed(rng.data_seed())),
                 23 => t.ops.push(Op::new(0, A_GE_DOUBLE_SCALARMULT).arg(rng.below(1 << 12)).seed(rng.data_seed())),
@@ -392,6 +392,14 @@ impl Scenario for ArithProg {
                     // 8 * L
                     let l8 = crate::model::big::add_kl(&[0u8; 32], 8).unwrap();
                     w[..32].copy_from_slice(&l8);
+                }
+                6 | 7 => {
+                    // boundary family: (a multiple of L) + 2^k - e, also with a random high half
+                    let b = crate::model::big::boundary_scalar(seed);
+                    w[..32].copy_from_slice(&b);
+                    if sel % 10 == 7 {
+                        w[32..].copy_from_slice(&data((seed >> 3) | 16, 32));
+                    }
                 }
                 _ => w.copy_from_slice(&data(seed | 16, 64)),
             }
@@ -483,8 +491,8 @@ impl Scenario for ArithProg {
                 }
                 A_SC_CANONICAL => {
                     // every selector, including values at and above L (this is a decoder: any string is in its domain)
-                    let mut b = special_scalar(op.arg, op.seed);
-                    if op.arg % 12 >= 8 && op.seed & 1 == 1 {
+                    let mut b = if op.arg >= 12 { crate::model::big::boundary_scalar(op.seed) } else { special_scalar(op.arg, op.seed) };
+                    if op.arg < 12 && op.arg % 12 >= 8 && op.seed & 1 == 1 {
                         // random with high bits set: between L and 2^256
                         b[31] |= 0x10 | ((op.seed >> 8) as u8 & 0xe0);
                     }
